@@ -86,6 +86,27 @@ func TestVerifC29(t *testing.T) {
 		_, err := gen.WriteSimple(d, c[2])
 		return err
 	})
+	// degenerate shards: every document empty (average length 0), a single document, empty and
+	// non-empty mixed, identical documents (ties everywhere), one very long document with thousands
+	// of occurrences beside tiny ones (extreme length ratios and term frequencies)
+	deg := func(name string, contents ...string) *ref.Repo {
+		rp := &ref.Repo{Name: "deg/" + name, ID: 50, Branches: []string{"HEAD"}}
+		for i, c := range contents {
+			rp.Docs = append(rp.Docs, &ref.Doc{Name: fmt.Sprintf("foo/bar%d_file.go", i), Content: []byte(c), Branches: []string{"HEAD"}})
+		}
+		return rp
+	}
+	for _, rp := range []*ref.Repo{
+		deg("all-empty", "", "", "", "", ""),
+		deg("one-empty", ""),
+		deg("one-doc", "package p\nfoo bar baz\n"),
+		deg("mixed-empty", "", "foo bar", "", "package baz foo\nfoo", ""),
+		deg("ties", "foo bar baz\n", "foo bar baz\n", "foo bar baz\n", "foo bar baz\n", "foo bar baz\n", "foo bar baz\n"),
+		deg("long", strings.Repeat("foo bar\n", 20000), "foo", "bar baz", "package p\nfunc foo() {}\n", ""),
+	} {
+		rp := rp
+		mk(strings.TrimPrefix(rp.Name, "deg/"), func(d string) error { _, err := gen.WriteSimple(d, rp); return err })
+	}
 	defer func() {
 		for _, s := range sets {
 			s.ds.Close()
